@@ -195,8 +195,14 @@ func psReachValV(fn *ssa.Function, starts []*ssa.BasicBlock, cut func(from *ssa.
 		}
 		return 0, false
 	}
+	// values learned on the path: the outcome of a branch condition that is used again later (a flag tested twice, a
+	// condition that also feeds a phi) keeps the value the taken edge implies
+	curL := map[ssa.Value]bool{}
 	var evalV func(v ssa.Value, e env) (res, known bool)
 	evalV = func(v ssa.Value, e env) (res, known bool) {
+		if r, ok := curL[v]; ok {
+			return r, true
+		}
 		switch x := v.(type) {
 		case *ssa.Const:
 			if x.Value != nil && x.Value.Kind() == constant.Bool {
@@ -314,6 +320,7 @@ func psReachValV(fn *ssa.Function, starts []*ssa.BasicBlock, cut func(from *ssa.
 		e  env
 		ei map[int]int64
 		ec map[int]int
+		el map[ssa.Value]bool
 	}
 	encAll := func(it item) string {
 		s := enc(it.e)
@@ -335,11 +342,19 @@ func psReachValV(fn *ssa.Function, starts []*ssa.BasicBlock, cut func(from *ssa.
 				s += "|c" + strconv.Itoa(k) + "=" + strconv.Itoa(it.ec[k])
 			}
 		}
+		if len(it.el) > 0 {
+			var ls []string
+			for v, b := range it.el {
+				ls = append(ls, v.Name()+"="+strconv.FormatBool(b))
+			}
+			sort.Strings(ls)
+			s += "|l" + strings.Join(ls, ",")
+		}
 		return s
 	}
 	var q []item
 	for _, s := range starts {
-		q = append(q, item{s, env{}, map[int]int64{}, map[int]int{}})
+		q = append(q, item{s, env{}, map[int]int64{}, map[int]int{}, map[ssa.Value]bool{}})
 	}
 	for len(q) > 0 {
 		it := q[0]
@@ -350,7 +365,7 @@ func psReachValV(fn *ssa.Function, starts []*ssa.BasicBlock, cut func(from *ssa.
 		}
 		seen[st] = true
 		reach[it.b] = true
-		curI, curC = it.ei, it.ec
+		curI, curC, curL = it.ei, it.ec, it.el
 		if visit != nil {
 			e := it.e
 			ec := it.ec
@@ -439,8 +454,57 @@ func psReachValV(fn *ssa.Function, starts []*ssa.BasicBlock, cut func(from *ssa.
 					nec[idx] = predIdx
 				}
 			}
+			nel := it.el
+			if iff != nil && i < 2 {
+				// what the taken edge says about the tested value (through negations), if it is used elsewhere too
+				base, neg := iff.Cond, false
+				for {
+					u, isU := base.(*ssa.UnOp)
+					if !isU || u.Op != token.NOT {
+						break
+					}
+					base, neg = u.X, !neg
+				}
+				learn := func(v ssa.Value, truth bool) {
+					if _, isPhi := v.(*ssa.Phi); isPhi {
+						return
+					}
+					if _, isConst := v.(*ssa.Const); isConst {
+						return
+					}
+					if refs := v.Referrers(); refs == nil || len(*refs) < 2 {
+						return
+					}
+					cp := map[ssa.Value]bool{}
+					for k, vv := range nel {
+						cp[k] = vv
+					}
+					cp[v] = truth
+					nel = cp
+				}
+				learn(iff.Cond, i == 0)
+				if base != iff.Cond {
+					learn(base, (i == 0) != neg)
+				}
+			}
+			// a learned value stays valid only while its defining block is not re-entered (next loop iteration)
+			if len(nel) > 0 {
+				for v := range nel {
+					if in, ok := v.(ssa.Instruction); ok && in.Block() == s {
+						if &nel == &it.el || true {
+							cp := map[ssa.Value]bool{}
+							for k, vv := range nel {
+								if k != v {
+									cp[k] = vv
+								}
+							}
+							nel = cp
+						}
+					}
+				}
+			}
 			lastPsEdges[[2]*ssa.BasicBlock{it.b, s}] = true
-			q = append(q, item{s, ne, nei, nec})
+			q = append(q, item{s, ne, nei, nec, nel})
 		}
 	}
 	return reach
